@@ -22,6 +22,8 @@ def worker(mod_json, wseed, nvalues, cfg_kw, spec_name, flags=drv.DEFAULT_FLAGS,
     import time as _time
     _t0 = _time.time()
     spec = importlib.import_module(spec_name)
+    if hasattr(spec, "flags_for"):
+        flags = spec.flags_for(wseed)
     acc = Acc()
     mod = Module.from_json(mod_json)
     if mod.name.startswith("CatHuge"):
@@ -126,6 +128,14 @@ class _OneShot:
 
 def replay_case(spec, case, flags=drv.DEFAULT_FLAGS, variant="asan"):
     mod = Module.from_json(case["module"])
+    if "flags" not in case and hasattr(spec, "FLAG_SETS"):
+        # a replay without recorded flags is tried under every flag set of the check
+        for fs in spec.FLAG_SETS:
+            c2 = dict(case, flags=list(fs))
+            bad, text = replay_case(spec, c2, flags, variant)
+            if bad:
+                return bad, text
+        return False, text
     x = spec.case_from_replay(mod, case)
     cls, text = eval_case(spec, mod, case["type"], x, tuple(case.get("flags", flags)), variant,
                           probe=bool(case.get("probe")))
